@@ -19,10 +19,11 @@
    under AddressSanitizer in the thorough tier.
 
    This file contains only pinned statements, each closed by a lemma of coq/C/.
-   OBLIGATIONS: C13_no_out_of_bounds C13_rc_balanced C13_all_released C13_release_from_any_state C13_dealloc C13_capacity_rejected C13_capacity_accepted_range C13_capacity_truncation_refuted C13_legacy_leaks_refuted C13_nonvacuous *)
+   OBLIGATIONS: C13_no_out_of_bounds C13_rc_balanced C13_all_released C13_release_from_any_state C13_dealloc C13_capacity_rejected C13_capacity_accepted_range C13_capacity_truncation_refuted C13_legacy_leaks_refuted C13_nonvacuous C13_capacity_stored_exactly *)
 From Coq Require Import List ZArith NArith Bool.
 From BPT Require Import Common.Base Common.AMap Rust.Tree C.Node C.Tree C.Run C.Abs C.PInv
   C.Spec C.StepDefs C.TreeProofs C.Dealloc C.StepAll C.Examples C.Legacy.
+From BPT Require Import Extra.CExtra.
 Import ListNotations.
 
 (* For every history, at every capacity given to the constructor: no call answers an
@@ -96,3 +97,9 @@ Proof. exact c_capacity_truncation_refuted. Qed.
 Definition C13_legacy_leaks_refuted := (c_leaf_split_leak_refuted, c_branch_insert_leak_refuted).
 
 Definition C13_nonvacuous := (ex_all_released, ex_shape, c_capacity_rejected_example).
+
+(* an accepted capacity is stored exactly as given (no truncation), and the root leaf's slot array has 2*capacity slots *)
+Theorem C13_capacity_stored_exactly : forall (capacity : Z) (t : ctree), tree_init capacity = Some t ->
+  Z.of_nat (tcap t) = capacity /\ ncap (root t) = tcap t /\ nk (root t) = 0 /\
+  length (data (root t)) = 2 * tcap t.
+Proof. exact CExtra.capacity_stored_exactly. Qed.
